@@ -12,9 +12,19 @@ def main():
   core.setup_impl_path()
   os.makedirs(os.path.join(core.COQ, 'gen'), exist_ok=True)
   rc = 0
+  targets = ['theories/Lib/Cases.vo']
   for path in sorted(glob.glob(os.path.join(core.VERIF, 'harness', 'props', 'c*.py'))):
     name = os.path.basename(path)[:-3]
-    mod = importlib.import_module('harness.props.' + name)
+    try:
+      mod = importlib.import_module('harness.props.' + name)
+    except Exception:
+      traceback.print_exc()
+      print('cannot import', name, '(skipped)')
+      continue
+    if getattr(mod, 'DISABLED', False):
+      print('skipping', mod.ID, '(not enabled yet)')
+      continue
+    targets.extend('theories/%s.vo' % s for s in getattr(mod, 'PROPS', []))
     if hasattr(mod, 'regenerate'):
       ctx = core.Ctx(mod, 'quick', 0)
       try:
@@ -30,7 +40,7 @@ def main():
     rc = 1
   with core.flock(os.path.join(core.COQ, '.lock')):
     core.ensure_makefile()
-  r, out = core.sh(['timeout', '3000', 'make', '-j16'], cwd=core.COQ, timeout=3100)
+  r, out = core.sh(['timeout', '3000', 'make', '-j16'] + targets, cwd=core.COQ, timeout=3100)
   print(out[-3000:])
   if r != 0:
     print('coq build FAILED')
